@@ -201,4 +201,28 @@ example : (write .add ['c'] ⟨5, 40, true, []⟩ (.raise 5 0) demoFs).raised = 
 example : Fault.ioRaise (program .add ['c'] ⟨5, 40, true, []⟩) (.raise 5 0) = true := by decide
 example : (program .add ['c'] ⟨5, 40, true, []⟩).length = 8 := by decide
 
+/-! ### The bulk entry point: `store.update(iterable)` (inherited from `AbstractObjectStore`: `for x in other: self.add(x)`) -/
+
+/-- **A bulk insertion reports the first failure and is otherwise the history of its `add`s**: either every `add` returned
+    normally and the state is that of running them all; or the list splits as `p ++ r :: s` where all of `p` were added, the
+    `add` of `r` failed, ITS exception is the result of the call (never swallowed), and neither `r` nor anything of `s` left a
+    trace in documents, caches or sources. -/
+theorem c15_bulk_insertion_reports_first_failure (w : W) (k : Nat) (rs : List Ref) :
+    ((addMany w k rs).2 = .unit ∧ (addMany w k rs).1 = run w (rs.map (Op.add k))) ∨
+    (∃ p r s, rs = p ++ r :: s ∧ (addMany w k p).2 = .unit ∧
+      (addMany w k rs).1 = run w (p.map (Op.add k)) ∧
+      (addMany w k rs).2 = (add (run w (p.map (Op.add k))) k r).2 ∧ (addMany w k rs).2 ≠ .unit) :=
+  addMany_spec k rs w
+
+/-- in particular: a call that returns normally has stored every object it was given -/
+theorem c15_bulk_insertion_ok_means_all_added (w : W) (k : Nat) (rs : List Ref) (h : (addMany w k rs).2 = .unit) :
+    (addMany w k rs).1 = run w (rs.map (Op.add k)) := by
+  rcases addMany_spec k rs w with ⟨_, h2⟩ | ⟨_, _, _, _, _, _, _, hne⟩
+  · exact h2
+  · exact absurd h hne
+
+-- a duplicate in second position: the first object is stored, the KeyError is reported, the third one is not touched
+example : (addMany (run init [.new ['a'] 1, .new ['a'] 2, .new ['b'] 3]) 0 [0, 1, 2]).2 = .keyError ∧
+    (addMany (run init [.new ['a'] 1, .new ['a'] 2, .new ['b'] 3]) 0 [0, 1, 2]).1.disk = [(['a'], 1)] := by decide
+
 end Basyx.FileStore
